@@ -22,6 +22,7 @@ package searcher
 //@ spec conjAhead(s *ConjunctionSearcher) bool = forall(k, 0, len(s.searchers), implies(s.started && s.currs[k] != nil, dmKey(s.currs[k]) > s.last))
 //@ spec conjInv(s *ConjunctionSearcher) bool = conjShape(s) && implies(!s.initialized, conjFresh(s) && !s.started) && implies(s.initialized, forall(k, 0, len(s.searchers), slotOK(s, k)) && conjAhead(s))
 
+//@ spec conjLoop(ctx *search.SearchContext, s *ConjunctionSearcher) bool = s.initialized && conjShape(s) && poolApart(ctx, s) && forall(k, 0, len(s.searchers), slotOK(s, k)) && conjAhead(s)
 // the pool's free list and the currs array are different arrays (both hold *DocumentMatch)
 //@ spec poolApart(ctx *search.SearchContext, s *ConjunctionSearcher) bool = ctx != nil && ctx.DocumentMatchPool != nil && (cap(s.currs) == 0 || base(ctx.DocumentMatchPool.avail) != base(s.currs))
 
@@ -37,3 +38,57 @@ package searcher
 //@   ensures poolApart(ctx, s) && conjShape(s) && s.currs == old(s.currs) && s.searchers == old(s.searchers) && forall(k, 0, len(s.searchers), implies(k != i, s.currs[k] == old(s.currs[k])))
 //@   ensures implies(err == nil, forall(k, 0, len(s.searchers), slotOK(s, k)) && implies(s.currs[i] != nil, dmKey(s.currs[i]) >= idKey(ID)))
 //@   ensures forall(k, 0, len(s.searchers), implies(k != i && s.currs[k] != nil, dmKey(s.currs[k]) == old(dmKey(s.currs[k]))))
+
+// initSearchers: every child is moved to its first match
+//@ func ConjunctionSearcher.initSearchers
+//@   props C08
+//@   mode int
+//@   requires s != nil && poolApart(ctx, s) && conjShape(s) && !s.initialized && conjFresh(s)
+//@   modifies s.initialized, s.currs[*], fields(search.DocumentMatch), search.DocumentMatch.cowner, search.DocumentMatchPool.avail, mem(*search.DocumentMatch), search.Searcher.started, search.Searcher.last, search.Searcher.done
+//@   at call searcher.Next#0 after: ghost result0.cowner = recv
+//@   ensures poolApart(ctx, s) && conjShape(s) && s.currs == old(s.currs) && s.searchers == old(s.searchers) && s.started == old(s.started) && s.last == old(s.last) && s.done == old(s.done)
+//@   ensures implies(result == nil, s.initialized && forall(k, 0, len(s.searchers), slotOK(s, k)))
+//@   loop 0: invariant poolApart(ctx, s) && conjShape(s) && !s.initialized && s.currs == old(s.currs) && s.searchers == old(s.searchers) && s.started == old(s.started) && s.last == old(s.last) && s.done == old(s.done)
+//@   loop 0: invariant forall(k, 0, iter, slotOK(s, k)) && forall(k, iter, len(s.searchers), s.currs[k] == nil && !s.searchers[k].started && !s.searchers[k].done)
+
+// Next: the children are advanced until all of them sit on the same id, which is returned; then all
+// of them are moved on. Results strictly ascending; the result is not below any child's position at
+// entry.
+//@ func ConjunctionSearcher.Next
+//@   props C08
+//@   mode int
+//@   requires s != nil && poolApart(ctx, s) && conjInv(s) && s.scorer != nil
+//@   modifies fields(ConjunctionSearcher), s.currs[*], fields(search.DocumentMatch), search.DocumentMatch.cowner, search.DocumentMatchPool.avail, mem(*search.DocumentMatch), search.Searcher.started, search.Searcher.last, search.Searcher.done
+//@   at call searcher.Next#0 after: ghost result0.cowner = recv
+//@   at return: ghost s.started = s.started || (result1 == nil && result0 != nil)
+//@   at return: ghost s.last = ite(result1 == nil && result0 != nil, dmKey(result0), s.last)
+//@   at return: ghost s.done = s.done || (result1 == nil && result0 == nil)
+//@   ensures implies(result1 == nil, poolApart(ctx, s) && conjInv(s) && s.initialized)
+//@   ensures implies(result1 == nil && result0 != nil, ascending(old(s.started), old(s.last), result0) && s.started && s.last == dmKey(result0))
+//@   ensures implies(result1 == nil && result0 != nil && old(s.initialized), forall(k, 0, len(s.searchers), implies(old(s.currs[k]) != nil, dmKey(result0) >= old(dmKey(s.currs[k])))))
+//@   ensures implies(result1 == nil && result0 == nil, s.done)
+//@   loop 0: invariant rv == nil && 0 <= s.maxIDIdx && conjLoop(ctx, s) && s.currs == old(s.currs) && s.searchers == old(s.searchers) && s.scorer == old(s.scorer) && s.started == old(s.started) && s.last == old(s.last) && s.done == old(s.done)
+//@   loop 0: invariant forall(k, 0, len(s.searchers), implies(old(s.initialized) && old(s.currs[k]) != nil && s.currs[k] != nil, dmKey(s.currs[k]) >= old(dmKey(s.currs[k]))))
+//@   loop 1: invariant rv == nil && conjLoop(ctx, s) && s.currs == old(s.currs) && s.searchers == old(s.searchers) && s.scorer == old(s.scorer) && s.started == old(s.started) && s.last == old(s.last) && s.done == old(s.done)
+//@   loop 1: invariant forall(k, 0, len(s.searchers), implies(old(s.initialized) && old(s.currs[k]) != nil && s.currs[k] != nil, dmKey(s.currs[k]) >= old(dmKey(s.currs[k]))))
+//@   loop 1: invariant 0 <= i && i <= len(s.currs) && 0 <= s.maxIDIdx && s.maxIDIdx < len(s.currs) && s.currs[s.maxIDIdx] != nil && maxID == s.currs[s.maxIDIdx].IndexInternalID && forall(k, 0, i, s.currs[k] != nil && dmKey(s.currs[k]) == idKey(maxID))
+//@   loop 2: invariant rv == nil && conjLoop(ctx, s) && s.currs == old(s.currs) && s.searchers == old(s.searchers) && s.scorer == old(s.scorer) && s.started == old(s.started) && s.last == old(s.last) && s.done == old(s.done)
+//@   loop 2: invariant forall(k, 0, len(s.searchers), implies(old(s.initialized) && old(s.currs[k]) != nil && s.currs[k] != nil, dmKey(s.currs[k]) >= old(dmKey(s.currs[k]))))
+//@   loop 2: invariant 0 <= x && x <= i && i == s.maxIDIdx && i < len(s.currs) && s.currs[i] != nil && maxID == s.currs[i].IndexInternalID && forall(k, x, i, s.currs[k] != nil && dmKey(s.currs[k]) < idKey(maxID))
+//@   loop 3: invariant rv != nil && s.initialized && conjShape(s) && poolApart(ctx, s) && s.currs == old(s.currs) && s.searchers == old(s.searchers) && s.started == old(s.started) && s.last == old(s.last) && s.done == old(s.done) && implies(s.started, dmKey(rv) > s.last)
+//@   loop 3: invariant forall(k, 0, len(s.searchers), implies(old(s.initialized) && old(s.currs[k]) != nil, dmKey(rv) >= old(dmKey(s.currs[k]))))
+//@   loop 3: invariant forall(k, 0, iter, slotOK(s, k) && implies(s.currs[k] != nil, dmKey(s.currs[k]) > dmKey(rv))) && forall(k, iter, len(s.searchers), s.currs[k] != nil && slotOK(s, k) && dmKey(s.currs[k]) == dmKey(rv) && implies(k > 0, s.currs[k] != rv)) && implies(iter == 0, s.currs[0] == rv)
+
+// Advance: children behind the target are advanced, then Next finds the first common id
+//@ func ConjunctionSearcher.Advance
+//@   props C08
+//@   mode int
+//@   requires s != nil && poolApart(ctx, s) && conjInv(s) && s.scorer != nil && (s.done || unconsumed(s.started, s.last, idKey(ID)))
+//@   modifies fields(ConjunctionSearcher), s.currs[*], fields(search.DocumentMatch), search.DocumentMatch.cowner, search.DocumentMatchPool.avail, mem(*search.DocumentMatch), search.Searcher.started, search.Searcher.last, search.Searcher.done
+//@   at return: ghost s.started = s.started || (result1 == nil && result0 != nil)
+//@   at return: ghost s.last = ite(result1 == nil && result0 != nil, dmKey(result0), s.last)
+//@   at return: ghost s.done = s.done || (result1 == nil && result0 == nil)
+//@   ensures implies(result1 == nil, poolApart(ctx, s) && conjInv(s) && s.initialized)
+//@   ensures implies(result1 == nil && result0 != nil, dmKey(result0) >= idKey(ID) && ascending(old(s.started), old(s.last), result0) && s.started && s.last == dmKey(result0))
+//@   ensures implies(result1 == nil && result0 == nil, s.done)
+//@   loop 0: invariant s.initialized && conjLoop(ctx, s) && s.scorer != nil && s.currs == old(s.currs) && s.searchers == old(s.searchers) && s.started == old(s.started) && s.last == old(s.last) && s.done == old(s.done) && forall(k, 0, iter, implies(s.currs[k] != nil, dmKey(s.currs[k]) >= idKey(ID)))
